@@ -71,7 +71,7 @@ def ensure_build(variant):
 
 VARIANT_FLAGS = {
     "plain": ("g++", ["-O2", "-g", "-DBXDECAY0_VERIF", "-ftrivial-auto-var-init=pattern"]),
-    "asan": ("clang++-14", ["-O1", "-g", "-fno-omit-frame-pointer", "-DBXDECAY0_VERIF", "-ftrivial-auto-var-init=pattern",
+    "asan": ("clang++-14", ["-O1", "-g", "-fno-omit-frame-pointer", "-D_GLIBCXX_SANITIZE_VECTOR", "-DBXDECAY0_VERIF", "-ftrivial-auto-var-init=pattern",
                             "-fsanitize=address,undefined", "-fno-sanitize-recover=undefined"]),
     "tsan": ("clang++-14", ["-O1", "-g", "-DBXDECAY0_VERIF", "-fsanitize=thread"]),
     "nohook": ("g++", ["-O2"]),
